@@ -22,6 +22,10 @@ type ChangelogCfg struct {
 	RetractSameTime bool
 	// ZeroTimeMix: in watermarked mode some records carry a zero event time (batch rows in a stream).
 	ZeroTimeMix bool
+	// LateRecords: some insertions carry an event time at or below the last watermark sent
+	// (late data). Only for properties that quantify over every input stream (C16); never
+	// where "inputs without late records" is a premise (C18, C19, C22).
+	LateRecords bool
 }
 
 type presentRow struct {
@@ -68,6 +72,9 @@ func GenChangelog(t *Tape, cfg ChangelogCfg) []Msg {
 				sec = wm + 1 + t.Draw(4)
 				if cfg.ZeroTimeMix && t.Chance(1, 6) {
 					sec = 0
+				}
+				if cfg.LateRecords && wm > 0 && t.Chance(1, 6) {
+					sec = 1 + t.Draw(wm)
 				}
 			}
 			var vals []octosql.Value
